@@ -61,6 +61,10 @@ def unit_from_string(unit_str: str | None) -> pint.Unit | None:
             except Exception:
                 logger.warning(f"Invalid unit {unit_str!r}")
                 unit = None
+        except Exception:
+            # e.g. "mV + mV": pint evaluates it as a quantity but cannot turn it into a unit
+            logger.warning(f"Invalid unit {unit_str!r}")
+            unit = None
     else:
         unit = None
     return unit
